@@ -54,7 +54,7 @@ Definition wf_cmd (c : cmd) : bool :=
   | CDelete key _ => legal key
   | CArith _ key d _ => legal key && (0 <=? d) && (d <? 2 ^ 64)
   | CTouch key ex _ => legal key && (- 2 ^ 63 <=? ex) && (ex <? 2 ^ 63)
-  | CFlush d _ => (0 <=? d) && (d <? 2 ^ 63)
+  | CFlush d _ => 0 <=? d            (* protocol.txt gives the delay no upper bound *)
   | CVersion => true
   end.
 
@@ -136,7 +136,7 @@ Definition parse_tokens (toks : list (list Z)) (rest : list Z) : option (cmd * l
       else if list_eqb verb L_flush_all then
         match args with
         | d :: m =>
-            match opt_noreply m, in_range 0 (2 ^ 63) (udec d) with
+            match opt_noreply m, udec d with
             | Some nr, Some z => Some (CFlush z nr, rest)
             | _, _ => None end
         | [] => None end
